@@ -15,7 +15,7 @@ the executable precedence-climbing reference parser (op `toiref`), `toMaxint` = 
 `InRange`, `evalChecked`. PcProofs/CalcGrammarEval.lean: `CodeOk e` = no `<<` with a negative left operand and no
 `MIN % -1` in `e` (the two cases where the repaired code rejects although value and intermediates are representable).
 -/
-import PcProofs.CalcGrammar
+import PcProofs.CalcGrammarErr
 
 namespace Pc.C13Grammar
 open Pc.Calc Pc.Gen
@@ -42,9 +42,17 @@ theorem refTree_is_documented (s : Bytes) (e : Expr) : refTree s = some e ↔ Pa
 
 /-- **`calcTree s = refTree s` for all byte strings**: the same tree on success, and the loop rejects a string iff it
     is not in the documented language (`calcTree` signals rejection by an error, `refTree` by `none`; the error is
-    never the model artefact `internal`: `Pc.C13.model_total`). -/
+    always the syntax error: `calcTree_eq_refTree_exact`). -/
 theorem calcTree_eq_refTree (s : Bytes) : (calcTree s).toOption = refTree s :=
   Pc.Calc.calcTree_eq_refTree s
+
+/-- As functions: `calcTree s` is the documented tree (computed by the reference parser), or the SYNTAX error — no other
+    error is possible for the tree-building run. -/
+theorem calcTree_eq_refTree_exact (s : Bytes) :
+    calcTree s = match refTree s with
+      | some e => .ok e
+      | none => .error .syntax :=
+  Pc.Calc.calcTree_eq_refTree_exact s
 
 /-- The same for the calculator with ANY arithmetic whose literal range check is monotone — the repaired one, the
     tree builder, and the unrepaired wrap-around calculator of the pinned tree: it returns `v` iff the string is in the
@@ -152,6 +160,7 @@ end Pc.C13Grammar
 #print axioms Pc.C13Grammar.grammar_unambiguous
 #print axioms Pc.C13Grammar.refTree_is_documented
 #print axioms Pc.C13Grammar.calcTree_eq_refTree
+#print axioms Pc.C13Grammar.calcTree_eq_refTree_exact
 #print axioms Pc.C13Grammar.calculator_is_documented
 #print axioms Pc.C13Grammar.documented_value
 #print axioms Pc.C13Grammar.undocumented_rejected
